@@ -539,3 +539,33 @@ Definition wf_tri (L : layout) (t : list wcell) : bool :=
 Definition grouped (t : list wcell) : bool :=
   list_eqb wcell_eqb (flat_map snd (groups t)) t
   && forallb (fun g => forallb (fun c => wmeta_eqb (w_meta c) (fst g)) (snd g)) (groups t).
+
+(* ------------------------------------------------------------------ Boolean equality of layouts *)
+Definition dattr_eqb (a b : dattr) : bool :=
+  match a, b with DPs, DPs | DPe, DPe | DEv, DEv | DPrev, DPrev => true | _, _ => false end.
+Definition action_eqb (a b : action) : bool :=
+  match a, b with AConcat, AConcat | ACellSet, ACellSet | AObservation, AObservation => true | _, _ => false end.
+Definition mdefault_eqb (a b : mdefault) : bool :=
+  match a, b with
+  | DfNone, DfNone | DfEmptyDict, DfEmptyDict => true | DfStr x, DfStr y => str_eqb x y | _, _ => false
+  end.
+Definition layout_eqb (a b : layout) : bool :=
+  str_eqb (L_slices a) (L_slices b)
+  && list_eqb (fun x y => str_eqb (fst x) (fst y) && mattr_eqb (snd x) (snd y)) (L_meta_out a) (L_meta_out b)
+  && list_eqb str_eqb (L_always a) (L_always b)
+  && str_eqb (L_cells a) (L_cells b)
+  && list_eqb (fun x y => str_eqb (fst x) (fst y) && dattr_eqb (snd x) (snd y)) (L_cell_out a) (L_cell_out b)
+  && list_eqb (fun x y => str_eqb (fst x) (fst y) && dattr_eqb (snd x) (snd y)) (L_prev_out a) (L_prev_out b)
+  && str_eqb (L_values a) (L_values b) && Bool.eqb (L_tolist a) (L_tolist b)
+  && str_eqb (L_fmt_out a) (L_fmt_out b)
+  && list_eqb (fun x y => list_eqb str_eqb (fst x) (fst y) && action_eqb (snd x) (snd y)) (L_dispatch a) (L_dispatch b)
+  && str_eqb (L_slices_in a) (L_slices_in b)
+  && list_eqb (fun x y => mattr_eqb (fst (fst x)) (fst (fst y)) && str_eqb (snd (fst x)) (snd (fst y))
+                          && mdefault_eqb (snd x) (snd y)) (L_meta_in a) (L_meta_in b)
+  && str_eqb (L_cells_in a) (L_cells_in b) && str_eqb (L_values_in a) (L_values_in b)
+  && Bool.eqb (L_np_array a) (L_np_array b) && str_eqb (L_inc_test a) (L_inc_test b)
+  && kind_eqb (L_class_if a) (L_class_if b)
+  && list_eqb (fun x y => dattr_eqb (fst x) (fst y) && str_eqb (snd x) (snd y)) (L_dates_if a) (L_dates_if b)
+  && kind_eqb (L_class_else a) (L_class_else b)
+  && list_eqb (fun x y => dattr_eqb (fst x) (fst y) && str_eqb (snd x) (snd y)) (L_dates_else a) (L_dates_else b)
+  && str_eqb (L_fmt_in a) (L_fmt_in b).
